@@ -3836,6 +3836,7 @@ type c18Req struct {
 	query       string
 	lieLength   int64 // != 0: Content-Length to claim
 	wantStatus  []int // allowed statuses (nil: 200)
+	noResults   bool  // the request exceeds the size limit as a whole: no call in it may be executed (no success response)
 }
 
 type c18Call struct {
@@ -4143,7 +4144,23 @@ func (e *c18Env) genSize() *c18Req {
 	target := c18HTTPBodyLimit + []int{-2, -1, 0, 1, 2, 1024, -1024, c18HTTPBodyLimit}[r.Intn(8)]
 	prefix := `{"jsonrpc":"2.0","id":1,"method":"ledger.getAccountInfoByAddress","params":["`
 	suffix := `"]}`
-	switch r.Intn(5) {
+	switch r.Intn(7) {
+	case 5, 6: // a batch of valid calls that exceeds the limit AS A WHOLE, with and without an announced length: the
+		// limit is on the request, so nothing of it may be executed
+		var b bytes.Buffer
+		b.WriteByte('[')
+		for i := 0; b.Len() < c18HTTPBodyLimit+32*1024; i++ {
+			if i > 0 {
+				b.WriteByte(',')
+			}
+			fmt.Fprintf(&b, `{"jsonrpc":"2.0","id":%d,"method":"embedded.token.getByZts","params":["%s"],"pad":"%s"}`, i, types.ZnnTokenStandard, strings.Repeat("p", 900))
+		}
+		b.WriteByte(']')
+		q := &c18Req{sub: "batch-over-limit-announced", body: b.Bytes(), wantStatus: []int{200, 413}, noResults: true}
+		if r.Intn(2) == 0 {
+			q.sub, q.lieLength = "batch-over-limit-unknown-length", -1
+		}
+		return q
 	case 0: // a long string argument
 		fill := target - len(prefix) - len(suffix)
 		return &c18Req{sub: fmt.Sprintf("long-string-limit%+d", target-c18HTTPBodyLimit), body: []byte(prefix + strings.Repeat("z", fill) + suffix), wantStatus: []int{200, 413}}
@@ -4852,7 +4869,19 @@ func (e *c18Env) fuzzHTTP(s *c18Server, class string, q *c18Req, i int) string {
 		if !okStatus {
 			e.violation(fmt.Sprintf("unexpected-http-status %s", class), map[string]interface{}{"subclass": q.sub, "status": status, "allowed": allowed, "request": c18Short(q.body, 300), "body": c18Short(body, 200)})
 		}
-		if status == 200 {
+		if status == 200 && q.noResults {
+			msgs, _, _ := c18SplitBody(body)
+			executed := 0
+			for _, m := range msgs {
+				if r, _ := c18WellFormed(m); r != nil && r.Error == nil {
+					executed++
+				}
+			}
+			if executed > 0 {
+				e.violation("oversized-request-executed http "+class, map[string]interface{}{"subclass": q.sub, "request_bytes": len(q.body), "limit": c18HTTPBodyLimit, "calls_answered_with_a_result": executed})
+			}
+			oc = fmt.Sprintf("over-limit-status200-executed=%v", executed > 0)
+		} else if status == 200 {
 			msgs, batch, bad := c18SplitBody(body)
 			if bad != "" {
 				e.violation("malformed-response http "+class, map[string]interface{}{"subclass": q.sub, "request": c18Short(q.body, 600), "response": c18Short(body, 400), "why": bad})
